@@ -123,6 +123,20 @@ def canonicalList : List Item → Bool
   | i :: is => i.canonical && canonicalList is
 end
 
+/-- drop redundant sign-extension groups (the canonical form of a value) -/
+def PVal.canon : PVal → PVal
+  | .bigInteger v _ => .bigInteger v (bigLen v)
+  | v => v
+
+mutual
+def Item.canon : Item → Item
+  | .prim t v => .prim t v.canon
+  | .struct t ks => .struct t (canonList ks)
+def canonList : List Item → List Item
+  | [] => []
+  | i :: is => i.canon :: canonList is
+end
+
 /-! ### strict decoder -/
 
 def splitHeader (bs : Bytes) : Option (Nat × Nat × Nat × Bytes) :=
